@@ -192,6 +192,27 @@ func c16Pass(c *core.Ctx, when string) {
 		if got, want := (spg.CharRecipe{Length: 1, Allow: spg.All}).Alphabet(), sortChars(docClasses["Uppers"]+docClasses["Lowers"]+docClasses["Digits"]+docClasses["Symbols"]); got != want {
 			fail("class All", fmt.Sprintf("All is %q, documented %q", got, want))
 		}
+		// every class (and named combination) allowed minus every class excluded
+		named := map[string]spg.CTFlag{"Uppers": spg.Uppers, "Lowers": spg.Lowers, "Digits": spg.Digits, "Symbols": spg.Symbols, "Ambiguous": spg.Ambiguous, "Letters": spg.Letters, "All": spg.All}
+		members := map[string]string{"Letters": docClasses["Uppers"] + docClasses["Lowers"], "All": docClasses["Uppers"] + docClasses["Lowers"] + docClasses["Digits"] + docClasses["Symbols"]}
+		for k, v := range docClasses {
+			members[k] = v
+		}
+		for an, af := range named {
+			for en, ef := range named {
+				item()
+				want := ""
+				for _, ch := range strings.Split(sortChars(members[an]), "") {
+					if !strings.Contains(members[en], ch) && !strings.HasSuffix(want, ch) {
+						want += ch
+					}
+				}
+				got := spg.CharRecipe{Length: 1, Allow: af, Exclude: ef}.Alphabet()
+				if got != want {
+					fail("class "+an+" minus "+en, fmt.Sprintf("Allow %s, Exclude %s: alphabet %q, documented classes give %q", an, en, got, want))
+				}
+			}
+		}
 		item()
 		if spg.Letters != spg.Uppers|spg.Lowers || spg.All != spg.Letters|spg.Digits|spg.Symbols || spg.None != 0 {
 			fail("named combinations", "Letters/All/None are not the documented unions")
